@@ -126,6 +126,16 @@ CHECKS = {
              "and reading settings must not mutate the configuration.",
         note="Trusted: audit hooks see every Python-level file-system mutation; graphql-core decides validity. The catalogue is finite and enumerated completely; it is not a proof over all invalid inputs.",
         design="4/C17"),
+    "C18": dict(
+        category="exploration",
+        technique="runtime contracts (icontract postconditions) on the real process_name/str_to_snake_case driven exhaustively over a reduced alphabet and re-bound in situ during real generation; load/drive of packages generated from dirty name classes; colliding-pair outcome classifier per scope",
+        text="A: every name over {a,b,A,B,1,_} up to length 6 (thorough 7) plus all keywords, soft keywords, public BaseModel attributes and Enum-reserved names with prefix/"
+             "suffix/case variants is mapped by the real functions under postconditions (identifier, not keyword, not a pydantic attribute, deterministic, idempotent, "
+             "letters and digits kept in order) for the four flag sets the generator uses. B: the contracts are re-bound into every generator module and evaluated during "
+             "real generation from schemas using one dirty name class at a time; the package is loaded and driven so the wire name is observed. C: colliding pairs are "
+             "placed in each scope kind: generation must fail or both names must stay usable.",
+        note="Part A is exhaustive over the stated reduced alphabet and bound only; real names use a larger alphabet (case classes are represented by a/b/A/B).",
+        design="4/C18"),
 }
 
 NOT_APPLICABLE = []
